@@ -66,7 +66,7 @@ def _replay(args):
             recs.append({"kind": inv["kind"], "d": inv["d"], "o": inv["o"], "fault_at": fault_at if last else 0, "cls": cls,
                          "exit": o["exit"], "nsteps": len(o["commands"]), "classes": classes,
                          "tools": [c["tool"] for c in o["commands"]],
-                         "dests": [{"path": p, "run": v["run"], "inputs": v["inputs"], "converted": v["converted"]}
+                         "dests": [{"path": p, "run": v["run"], "inputs": v["inputs"], "converted": v["converted"], "ident": v["ident"]}
                                    for p, v in sorted(o["dests"].items())],
                          "output": o["output"][-600:]})
         return {"script": script, "invs": recs}
